@@ -44,6 +44,12 @@ import (
 // See Antlr grammar at https://github.com/kstenerud/go-concise-encoding/tree/master/codegen/cte
 
 func ParseDocument(document string, eventReceiver events.DataEventReceiver) error {
+	// A CTE document is UTF-8 text. The input stream below would quietly turn
+	// every malformed sequence into U+FFFD.
+	if !utf8.ValidString(document) {
+		return fmt.Errorf("document is not valid UTF-8")
+	}
+
 	errorListener := new(reportingErrorListener)
 
 	is := antlr.NewInputStream(document)
